@@ -28,6 +28,9 @@ func SendAccountDebitRequest(
 	if err != nil {
 		return nil, err
 	}
+	// one connection is dialled per request: close it (and with it its reader
+	// and watchdog) when the request is over, whatever its outcome
+	defer conn.Close()
 
 	meta, ok := smpeer.FromContext(conn.Context())
 	if !ok {
